@@ -481,13 +481,22 @@ impl StateStore {
 
     /// Create a checkpoint of current state
     pub fn checkpoint(&mut self, name: impl Into<String>) -> StateResult<String> {
-        let checkpoint_id = format!(
-            "checkpoint_{}",
-            SystemTime::now()
-                .duration_since(UNIX_EPOCH)
-                .unwrap()
-                .as_millis()
-        );
+        let now_ms = SystemTime::now()
+            .duration_since(UNIX_EPOCH)
+            .unwrap()
+            .as_millis();
+        let mut checkpoint_id = format!("checkpoint_{}", now_ms);
+
+        // Checkpoint ids must be distinct: two checkpoints taken within the same
+        // millisecond would otherwise share an id and overwrite each other's directory.
+        {
+            let existing = self.checkpoints.read().unwrap();
+            let mut suffix = 1;
+            while existing.iter().any(|c| c.id == checkpoint_id) {
+                checkpoint_id = format!("checkpoint_{}_{}", now_ms, suffix);
+                suffix += 1;
+            }
+        }
 
         let state = self.state.read().unwrap();
         let snapshot: HashMap<String, Value> = state
